@@ -1,4 +1,4 @@
-import AllfedModel.Model.Scenario
+import AllfedModel.Model.ScenarioSpec
 import Driver.Wire
 open Wire Allfed.Scenario Allfed.Gen.Scenario
 
@@ -93,24 +93,34 @@ def seqOpP : P SeqOp := do
   | "w" => do let p ← str; let v ← valP; pure (.put p v)
   | _ => throw s!"wire: bad op tag {t}"
 
-def runSeq (opts : Dict Float) (cd : Option (Dict Float)) : Nat → ScState Float → List SeqOp → String
+def runSeq (find : String → Option SetterInfo) (opts : Dict Float) (cd : Option (Dict Float)) :
+    Nat → ScState Float → List SeqOp → String
   | _, s, [] => "ok " ++ outState s
   | i, s, .call n :: t =>
-    match findSetter n with
+    match find n with
     | none => s!"err internal {i}"
     | some info =>
       match applySetter opts cd s info with
-      | .ok s' => runSeq opts cd (i + 1) s' t
+      | .ok s' => runSeq find opts cd (i + 1) s' t
       | .error e => s!"err {outErr e} {i}"
   | i, s, .put p v :: t =>
     match storeWrite p v s.consts with
-    | .ok c => runSeq opts cd (i + 1) { s with consts := c } t
+    | .ok c => runSeq find opts cd (i + 1) { s with consts := c } t
     | .error e => s!"err {outErr e} {i}"
 
 /-- scen.seq <cd> <opts> <ops> : a sequence of real setter calls (and harness writes) on one fresh object -/
 def seqOp : P String := do
   let cd ← cdP; let opts ← dictP; let ops ← list seqOpP
-  pure (runSeq opts cd 0 ScState.init ops)
+  pure (runSeq findSetter opts cd 0 ScState.init ops)
+
+/-- scen.seqspec … : the same sequence, but every setter that has a row in the hand-written specification
+    is executed FROM THAT ROW (the documentation run as a program); the others from the generated table -/
+def seqSpecOp : P String := do
+  let cd ← cdP; let opts ← dictP; let ops ← list seqOpP
+  pure (runSeq (fun n => match findSpec n with | some i => some i | none => findSetter n) opts cd 0 ScState.init ops)
+
+/-- scen.specnames : setters that have a specification row -/
+def specNamesOp : P String := pure (outL encodeStr (specTable.map (·.name)))
 
 /-- scen.dispatch <cd> <opts> : set_depending_on_option, interleaved as the code runs it, and in two phases -/
 def dispatchOp : P String := do
@@ -148,7 +158,7 @@ def stripOp : P String := do
   pure (encodeStr (pyStrip c s))
 
 def ops : List (String × P String) :=
-  [("scen.seq", seqOp), ("scen.dispatch", dispatchOp), ("scen.info", infoOp), ("scen.loader", loaderOp),
+  [("scen.seq", seqOp), ("scen.seqspec", seqSpecOp), ("scen.specnames", specNamesOp), ("scen.dispatch", dispatchOp), ("scen.info", infoOp), ("scen.loader", loaderOp),
    ("scen.headkey", headKeyOp), ("scen.strip", stripOp)]
 
 end Ops.Scenario
